@@ -124,6 +124,11 @@ func (muxer *Muxer) process() {
 		}
 
 		if !packSequenceHeader{
+			// 视频参数集（SDP 中没有时由码流带入）尚未齐备时组不出解码配置：
+			// 抢先到达的帧（通常是音频帧）先丢弃，否则序列头里的参数集是空的或不完整的
+			if !muxer.videoParamsReady() {
+				continue
+			}
 			muxer.muxMetadataTag()
 			muxer.vp.PacketizeSequenceHeader()
 			muxer.ap.PacketizeSequenceHeader()
@@ -132,6 +137,18 @@ func (muxer *Muxer) process() {
 		
 		muxer.packetize(f.(*codec.Frame))
 	}
+}
+
+// videoParamsReady 视频参数集是否齐备
+func (muxer *Muxer) videoParamsReady() bool {
+	vm := muxer.videoMeta
+	if len(vm.Sps) == 0 || len(vm.Pps) == 0 {
+		return false
+	}
+	if vm.Codec == "H265" && len(vm.Vps) == 0 {
+		return false
+	}
+	return true
 }
 
 // packetize 处理单个帧；畸形帧引起的 panic 只丢弃该帧，不能终止整个转换协程
